@@ -28,7 +28,9 @@ partial def decDoc : Lean.Json → Except String MJson
       | .ok (.bool b) => pure (.fzero b)
       | _ =>
       match j.getObjVal? "fl" with
-      | .ok (.str r) => pure (.float r.toList)
+      | .ok (.str r) => (match r.toList with
+          | c :: cs => pure (.float c cs)
+          | [] => throw "fl: empty float text")
       | _ =>
       match j.getObjVal? "o" with
       | .ok (.arr kvs) => do
@@ -43,7 +45,7 @@ partial def encDoc : MJson → Lean.Json
   | .bool b => .bool b
   | .int i => .num (JsonNumber.fromInt i)
   | .fzero b => Json.mkObj [("fz", .bool b)]
-  | .float r => Json.mkObj [("fl", .str (String.ofList r))]
+  | .float c r => Json.mkObj [("fl", .str (String.ofList (c :: r)))]
   | .str s => .str (String.ofList s)
   | .arr xs => .arr (xs.map encDoc).toArray
   | .obj kvs => Json.mkObj [("o", .arr (kvs.map (fun (k, v) => Lean.Json.arr #[.str (String.ofList k), encDoc v])).toArray)]
@@ -121,8 +123,7 @@ def handle (j : Lean.Json) : Except String Lean.Json := do
         ("python", encNav encDoc (pyNavigate doc keys)),
         ("json1", match json1Extract doc keys with
                   | .ok v => Json.mkObj [("ok", encDoc v)]
-                  | .error .pathError => Json.mkObj [("error", "pathError")]
-                  | .error .udfTypeError => Json.mkObj [("error", "udfTypeError")]),
+                  | .error .pathError => Json.mkObj [("error", "pathError")]),
         ("extract1", encNav encDoc (pyJsonExtract1 cte doc pk)),
         ("query", encNav encOptText q),
         ("nonzero", nz),
